@@ -71,6 +71,10 @@ class DataFrame(Entity, DataSet):
         del self._h5group.group['data']
         self._h5group.create_dataset("data", (nrows,), dt)
         self.write_direct(farr)
+        units = self.units
+        if units is not None:
+            # keep one unit entry per column
+            self.units = list(units) + [None]
 
     def append_rows(self, data):
         """
